@@ -861,6 +861,21 @@ static void run_c01_c04(void) {
                     vh_fail("delta.ZigZag", "bytes_differ_from_reference", "untagged", "n=%" PRId64 " lib=%" PRIu64 " ref=%" PRIu64 " back=%" PRId64, s, z, ref_zigzag(s), varintDeltaZigZagDecode(z));
                 }
                 vh_count("calls", 2);
+                {
+                    /* single delta record: [width byte][zig-zag value, little-endian, minimal width] */
+                    uint8_t db[16], rb[16];
+                    memset(db, 0x5a, sizeof db);
+                    int dl = (int)varintDeltaPut(db, s);
+                    int rw = ref_bytes_of(ref_zigzag(s));
+                    rb[0] = (uint8_t)rw;
+                    ref_le(rb + 1, ref_zigzag(s), rw);
+                    int64_t back = ~s;
+                    int gl = (int)varintDeltaGet(db, &back);
+                    if (dl != 1 + rw || memcmp(db, rb, (size_t)(1 + rw)) || db[1 + rw] != 0x5a || gl != dl || back != s) {
+                        vh_fail("delta.Put/Get", dl != 1 + rw || memcmp(db, rb, (size_t)(1 + rw)) ? "bytes_differ_from_reference" : "roundtrip_mismatch", "untagged", "n=%" PRId64 " lib=%s ref=%s put=%d get=%d back=%" PRId64, s, vh_hex(db, 10), vh_hex(rb, (size_t)(1 + rw)), dl, gl, back);
+                    }
+                    vh_count("calls", 2);
+                }
                 if (v == 0) {
                     continue;
                 }
